@@ -1765,6 +1765,14 @@ class Models:
                 return recv
             if name == "astype":
                 return recv
+            if name in ("any", "all") and not args and not kwargs and not (isinstance(recv, SArr) and recv.shape is not None):
+                # arr.any() / arr.all() of a 1-D array of numbers: some / every entry is non-zero
+                h = getattr(ip.reg, "any_hook" if name == "any" else "all_hook", None)
+                if h is None:
+                    raise Unsupported(f"ndarray.{name}() over a symbolic-length array")
+                S_ = self.as_seq(recv)
+                nz = SSeq(S_.n, lambda k: SBool(real_term(S_.get(k)) != 0), "list", "nonzero-mask")
+                return h(ip, nz, node)
         if isinstance(recv, str):
             if name in ("lower", "upper", "strip", "isdigit", "startswith", "endswith", "format", "join", "split"):
                 try:
